@@ -228,6 +228,8 @@ def run(ctx):
                 bad = world.oracle_forest(h.w)
                 if bad:
                     ctx.add("oracle", "twin-swap-forest", "after the twin swaps and the moves back: " + "; ".join(bad[:3]), {"items": h.items})
+    import lookups as _lk
+    _lk.failed_bulk_blocks(ctx, g, ctx.rng, 40 if ctx.quick else 800, 'forest-inconsistent:failed-bulk-blocks')
     default_args_oracle(ctx, g)
     ctor_copy_oracle(ctx, g)
     aggregate_kinds_oracle(ctx, g)
